@@ -8,16 +8,6 @@ namespace OmplModel.PlannerProto
 
 variable {σ δ D C : Type}
 
-/-- what the protocol layer needs to know about a core -/
-structure LawfulCore (cs : CoreSpec σ δ D C) : Prop where
-  owned_init : cs.owned cs.init = []
-  owned_addRoot : ∀ c i s, (cs.owned (cs.addRoot c i s)).Perm (i :: cs.owned c)
-  owned_iterate_some : ∀ c i d c' r, cs.iterate c i d = (c', some r) → (cs.owned c').Perm (i :: cs.owned c)
-  owned_iterate_none : ∀ c i d c', cs.iterate c i d = (c', none) → cs.owned c' = cs.owned c
-  size_iterate : ∀ c i d c' o, cs.iterate c i d = (c', o) → cs.size c ≤ cs.size c'
-  idx_iterate : ∀ c i d c' idx sat dist, cs.iterate c i d = (c', some (idx, sat, dist)) → idx < cs.size c'
-  path_nonempty : ∀ c i, i < cs.size c → cs.pathTo c i ≠ []
-
 /-- one event against (live ids, strict upper bound of every id allocated so far) -/
 def applyEv : List Nat × Nat → Ev → Option (List Nat × Nat)
   | (L, b), .alloc i => if b ≤ i then some (i :: L, i + 1) else none
@@ -37,6 +27,19 @@ theorem replay_append (s : List Nat × Nat) (a b : List Ev) :
     cases applyEv s e with
     | none => simp
     | some s' => simpa using ih s'
+
+/-- what the protocol layer needs to know about a core: what its motions own, that one loop body's allocation
+events replay correctly and leave exactly the owned states (plus whatever else was live) allocated, that the tree
+only grows, that reported motions exist, and that paths of existing motions are non-empty. -/
+structure LawfulCore (cs : CoreSpec σ δ D C) : Prop where
+  owned_init : cs.owned cs.init = []
+  owned_addRoot : ∀ c i s, (cs.owned (cs.addRoot c i s)).Perm (i :: cs.owned c)
+  iterate_replay : ∀ c n d (L X : List Nat), L.Perm (cs.owned c ++ X) →
+    ∃ L', replay (L, n) (cs.iterate c n d).evs = some (L', (cs.iterate c n d).next) ∧
+      L'.Perm (cs.owned (cs.iterate c n d).core ++ X)
+  size_iterate : ∀ c i d, cs.size c ≤ cs.size (cs.iterate c i d).core
+  idx_iterate : ∀ c i d r, r ∈ (cs.iterate c i d).res → r.1 < cs.size (cs.iterate c i d).core
+  path_nonempty : ∀ c i, i < cs.size c → cs.pathTo c i ≠ []
 
 /-- `Good L n O X`: live list `L` is a permutation of owned `O` plus extras `X` -/
 theorem alloc_step (L : List Nat) (n : Nat) : applyEv (L, n) (.alloc n) = some (n :: L, n + 1) := by
@@ -87,34 +90,16 @@ theorem loop_replay (cs : CoreSpec σ δ D C) (hl : LawfulCore cs) (ltD : δ →
     cases ds with
     | nil => exact ⟨L, by simp [loop, replay], by simpa [loop] using h⟩
     | cons d ds =>
-      cases hit : cs.iterate c n d with
-      | mk c' o =>
-        cases o with
-        | none =>
-          have ho := hl.owned_iterate_none c n d c' hit
-          obtain ⟨L', h1, h2⟩ := ih ds c' s n L X (by simpa [ho] using h)
-          exact ⟨L', by simpa [loop, hit] using h1, by simpa [loop, hit] using h2⟩
-        | some r =>
-          obtain ⟨idx, sat, dist⟩ := r
-          have ho := hl.owned_iterate_some c n d c' _ hit
-          have hp : (n :: L).Perm (cs.owned c' ++ X) := by
-            have h1 : (n :: L).Perm (n :: (cs.owned c ++ X)) := h.cons n
-            have h2 : (n :: (cs.owned c ++ X)).Perm (cs.owned c' ++ X) := by
-              have := ho.symm.append_right X
-              simpa using this
-            exact h1.trans h2
-          cases sat with
-          | true =>
-            exact ⟨n :: L, by simp [loop, hit, replay, alloc_step], by simpa [loop, hit] using hp⟩
-          | false =>
-            obtain ⟨L', h1, h2⟩ := ih ds c'
-              (if ltD dist s.approxdif then { s with approxsol := some idx, approxdif := dist } else s) (n + 1) (n :: L) X hp
-            refine ⟨L', ?_, ?_⟩
-            · have e : ∀ (t : List Ev), replay (L, n) (Ev.alloc n :: t) = replay (n :: L, n + 1) t := by
-                intro t; simp [replay, alloc_step]
-              simp only [loop, hit]
-              simpa [e] using h1
-            · simpa [loop, hit] using h2
+      obtain ⟨L1, r1, p1⟩ := hl.iterate_replay c n d L X h
+      simp only [loop]
+      split
+      · exact ⟨L1, r1, p1⟩
+      · obtain ⟨L2, r2, p2⟩ := ih ds (cs.iterate c n d).core (applyRes ltD s (cs.iterate c n d).res).1
+          (cs.iterate c n d).next L1 X p1
+        refine ⟨L2, ?_, p2⟩
+        simp only
+        rw [replay_append, r1]
+        exact r2
 
 /-- cloning the path states -/
 theorem fresh_replay (len : Nat) : ∀ (n : Nat) (L : List Nat),
@@ -168,6 +153,19 @@ theorem perm_two (x r : Nat) (O H : List Nat) : (x :: r :: (O ++ H)).Perm (O ++ 
   have h2 : (x :: (O ++ (r :: H))).Perm (O ++ (x :: r :: H)) := List.perm_middle.symm
   exact (h1.cons x).trans h2
 
+theorem freeTemps_replay (b : Bool) (L R : List Nat) (n x r : Nat) (h : L.Perm (x :: r :: R)) :
+    ∃ L', replay (L, n) (freeTemps b x r) = some (L', n) ∧ L'.Perm R := by
+  cases b with
+  | true =>
+    obtain ⟨f1, g1⟩ := free_step L _ n x h
+    obtain ⟨f2, g2⟩ := free_step (L.erase x) _ n r g1
+    exact ⟨(L.erase x).erase r, by simp only [freeTemps, if_true, replay, f1, f2, Option.bind], g2⟩
+  | false =>
+    have h' : L.Perm (r :: x :: R) := h.trans (List.Perm.swap r x R)
+    obtain ⟨f1, g1⟩ := free_step L _ n r h'
+    obtain ⟨f2, g2⟩ := free_step (L.erase r) _ n x g1
+    exact ⟨(L.erase r).erase x, by simp [freeTemps, replay, f1, f2], g2⟩
+
 theorem finish_bal (cs : CoreSpec σ δ D C) (P : Params σ δ) (m1 : M σ δ C) (pd : Pdef σ δ)
     (e12 : List Ev) (rm xs : Nat) (r : LoopOut δ C) (Lr : List Nat)
     (h1 : replay ([], 0) (m1.log ++ r.evs) = some (Lr, r.next))
@@ -178,29 +176,27 @@ theorem finish_bal (cs : CoreSpec σ δ D C) (P : Params σ δ) (m1 : M σ δ C)
   · rename_i i a hp
     simp only
     obtain ⟨L4, h4, p4⟩ := fresh_replay (cs.pathTo r.core i).length r.next Lr
-    -- L4 ~ xs :: rm :: (owned ++ handed ++ ids)
     have q : L4.Perm (xs :: rm :: (cs.owned r.core ++ (m1.handed ++ freshIds r.next (cs.pathTo r.core i).length))) := by
       refine p4.trans ?_
       have := (h2.trans (perm_two xs rm (cs.owned r.core) m1.handed).symm).append_right
         (freshIds r.next (cs.pathTo r.core i).length)
       simpa [List.append_assoc] using this
-    obtain ⟨f1, g1⟩ := free_step L4 _ (r.next + (cs.pathTo r.core i).length) xs q
-    obtain ⟨f2, g2⟩ := free_step (L4.erase xs) _ (r.next + (cs.pathTo r.core i).length) rm g1
-    refine ⟨(L4.erase xs).erase rm, ?_, g2⟩
-    have e : m1.log ++ (r.evs ++ List.map Ev.alloc (freshIds r.next (cs.pathTo r.core i).length) ++ [Ev.free xs, Ev.free rm])
-        = (m1.log ++ r.evs) ++ (List.map Ev.alloc (freshIds r.next (cs.pathTo r.core i).length) ++ [Ev.free xs, Ev.free rm]) := by
+    obtain ⟨L5, f5, g5⟩ := freeTemps_replay cs.xFirst L4 _ (r.next + (cs.pathTo r.core i).length) xs rm q
+    refine ⟨L5, ?_, g5⟩
+    have e : m1.log ++ (r.evs ++ List.map Ev.alloc (freshIds r.next (cs.pathTo r.core i).length) ++ freeTemps cs.xFirst xs rm)
+        = (m1.log ++ r.evs) ++ (List.map Ev.alloc (freshIds r.next (cs.pathTo r.core i).length) ++ freeTemps cs.xFirst xs rm) := by
       simp [List.append_assoc]
     rw [e, replay_append, h1]
-    simp only [Option.bind, replay_append, h4, replay, f1, f2]
+    simp only [Option.bind, replay_append, h4]
+    exact f5
   · simp only
     have q : Lr.Perm (xs :: rm :: (cs.owned r.core ++ m1.handed)) := h2.trans (perm_two xs rm _ _).symm
-    obtain ⟨f1, g1⟩ := free_step Lr _ r.next xs q
-    obtain ⟨f2, g2⟩ := free_step (Lr.erase xs) _ r.next rm g1
-    refine ⟨(Lr.erase xs).erase rm, ?_, g2⟩
-    have e : m1.log ++ (r.evs ++ [Ev.free xs, Ev.free rm]) = (m1.log ++ r.evs) ++ [Ev.free xs, Ev.free rm] := by
+    obtain ⟨L5, f5, g5⟩ := freeTemps_replay cs.xFirst Lr _ r.next xs rm q
+    refine ⟨L5, ?_, g5⟩
+    have e : m1.log ++ (r.evs ++ freeTemps cs.xFirst xs rm) = (m1.log ++ r.evs) ++ freeTemps cs.xFirst xs rm := by
       simp [List.append_assoc]
     rw [e, replay_append, h1]
-    simp only [Option.bind, replay, f1, f2]
+    exact f5
 
 theorem solve_bal (cs : CoreSpec σ δ D C) (hl : LawfulCore cs) (P : Params σ δ) (m : M σ δ C) (k : Nat) (ds : List D)
     (hb : Bal cs m) : Bal cs (solve cs P m k ds).m := by
